@@ -475,6 +475,11 @@ def run(ctx):
                 "non-symmetric patterns (model tie only), P in 1..8; I/O: rectangular matrices with empty rows, values 1e-12..1e12 "
                 "of both signs, general/symmetric banners, default and explicit partitions with empty blocks, P in 1..8; "
                 "non-trivial = more than one grid point and a non-zero stencil / a file with entries; distinct = distinct case text")
+    ctx.extra_cov = dict(partial_clauses=[
+        "stencil generators (C19_stencil_*, C19_par_stencil_*, C19_makers_symmetric): fully proved for every dimension count, every extent >= 1, every partition",
+        "Matrix Market / PETSc binary (C19_*_partial): proved on the token-level model; libc formatting/scanning (show, parse), byte order and "
+        "ParMatrix::finalize after the distributed readers are not modelled - checked on the explored inputs by the O oracle "
+        "(round trip to 16 printed digits, distributed = sequential = file content) and the K comparison"])
     before = set(glob.glob("/tmp/c19-drv-*"))
     cases = []
     if ctx.replay:
